@@ -2,7 +2,7 @@
 import re
 
 from pyvc.core import And, Eq, Implies, Ite, Not, Or
-from pyvc.unit import unit
+from pyvc.unit import bare, unit
 
 DEX = "androguard/core/dex/__init__.py"
 DEC = "androguard/decompiler/decompile.py"
@@ -203,14 +203,14 @@ class _Vals:
 def static_field_binding(U, nf, nv):
     """the i-th static value initialises the i-th static field; fields beyond the array get none"""
     m = U.mod(DEX)
-    cdi = object.__new__(m.ClassDataItem)
+    cdi = bare(m.ClassDataItem)
     fields = []
     for i in range(nf):
-        f = object.__new__(m.EncodedField)
+        f = bare(m.EncodedField)
         f.init_value = None
         fields.append(f)
     cdi.static_fields = fields
-    other = object.__new__(m.EncodedField)
+    other = bare(m.EncodedField)
     other.init_value = None
     cdi.instance_fields = [other]
     vals = [("value", i) for i in range(nv)]
@@ -292,10 +292,10 @@ def printed_string_and_ast(U):
     i = U.given.get("i", 0) if U.given else 0
     U.drawn["i"] = i
     v = STRING_VALUES[i]
-    ev = object.__new__(dex.EncodedValue)
+    ev = bare(dex.EncodedValue)
     ev.value = v
     f = _Field("Ljava/lang/String;", ev)
-    c = object.__new__(dec.DvClass)
+    c = bare(dec.DvClass)
     c.inner, c.package, c.superclass, c.prototype = False, "", None, "public class X"
     c.interfaces, c.fields, c.methods, c.name, c.access, c.thisclass = [], [f], [], "X", ["public"], "LX;"
     o = U.call(c.get_source)
@@ -317,7 +317,7 @@ def printed_string_and_ast(U):
                           ok, printed=lit, units=None if r is None else r[0], want=want)
     # negative byte constants: the AST of the class can be built and carries the value
     for bv in (-128, -1, 0, 127):
-        evb = object.__new__(dex.EncodedValue)
+        evb = bare(dex.EncodedValue)
         evb.value = bv
         fb = _Field("B", evb)
         fb.init_value = evb
@@ -347,9 +347,9 @@ def printed_initialiser(U):
     dex = U.mod(DEX)
     proto = U.choice("proto", ["B", "S", "I", "J", "C"])
     v = U.int("v", -2 ** 63, 2 ** 63 - 1)
-    ev = object.__new__(dex.EncodedValue)
+    ev = bare(dex.EncodedValue)
     ev.value = v
-    c = object.__new__(dec.DvClass)
+    c = bare(dec.DvClass)
     c.inner, c.package, c.superclass, c.prototype = False, "", None, "public class X"
     c.interfaces, c.fields, c.methods, c.name, c.access, c.thisclass = [], [_Field(proto, ev)], [], "X", ["public"], "LX;"
     o = U.call(c.get_source)
